@@ -1259,7 +1259,7 @@ class Calculus:
         degree = knotvector.degree
         assert degree > 0
         npts = knotvector.npts
-        avals = np.zeros(npts, dtype="float64")
+        avals = [0] * npts  # Keeps the number type of the knots (exact for Fraction)
         for i in range(npts):
             diff = knotvector[i + degree] - knotvector[i]
             if diff != 0:
